@@ -303,9 +303,8 @@ func ruleR1_10(w *World, r *Report) {
 		r.Unk("R1.10", "clause-learning analyser", "-", "no conflict analyser reads Solver.assumptions")
 		return
 	}
-	getter := w.Func("solver", "Clause.Get")
 	lenFn := w.Func("solver", "Clause.Len")
-	if getter == nil || lenFn == nil {
+	if lenFn == nil {
 		r.Unk("R1.10", "(*solver.Clause).Get / Len", "-", "accessor not found")
 		return
 	}
@@ -325,22 +324,36 @@ func ruleR1_10(w *World, r *Report) {
 			}
 			seenFn[fn] = true
 			k := 0
-			for _, ci := range callsIn(fn) {
-				c, ok := ci.(*ssa.Call)
-				if !ok || !w.staticCalleeIs(c, getter) || len(c.Call.Args) != 2 || !inLoop(fn, c.Block()) {
-					continue
+			seenRead := map[ssa.Value]bool{}
+			allInstrs(fn, func(ins ssa.Instruction) {
+				v, ok := ins.(ssa.Value)
+				if !ok || !inLoop(fn, ins.Block()) {
+					return
 				}
-				recv, idx := c.Call.Args[0], c.Call.Args[1]
-				// only loops over a constraint that is not the function's own output
+				recv, idx, ok := clauseElem(w, v)
+				if !ok || seenRead[v] {
+					return
+				}
+				seenRead[v] = true
 				k++
 				key := fmt.Sprintf("%s constraint scan #%d", w.FuncName(fn), k)
 				full := fullRangeIndex(idx, func(b ssa.Value) bool {
 					lc, ok := b.(*ssa.Call)
-					return ok && w.staticCalleeIs(lc, lenFn) && len(lc.Call.Args) == 1 && lc.Call.Args[0] == recv
+					if !ok || len(lc.Call.Args) != 1 {
+						return false
+					}
+					if w.staticCalleeIs(lc, lenFn) {
+						return lc.Call.Args[0] == recv
+					}
+					if bi, isB := lc.Call.Value.(*ssa.Builtin); isB && bi.Name() == "len" {
+						base, isF := isFieldLoad(lc.Call.Args[0], "solver.Clause", "lits")
+						return isF && base == recv
+					}
+					return false
 				})
-				r.Check(full, "R1.10", key, w.InstrPos(c), "index runs from 0 to Len()-1 of the constraint read",
-					"the loop does not visit every position of the constraint it reads (start other than 0, step other than 1, or bound other than its Len()): a literal of the conflict / reason is left out of the analysis, so the learned clause is not implied by the constraints it was derived from")
-			}
+				r.Check(full, "R1.10", key, w.InstrPos(ins), "index runs from 0 to the length of the constraint read",
+					"the loop does not visit every position of the constraint it reads (start other than 0, step other than 1, or bound other than its length): a literal of the conflict / reason is left out of the analysis, so the learned clause is not implied by the constraints it was derived from")
+			})
 		}
 	}
 }
